@@ -26,7 +26,7 @@ func init() { props["C20"] = genC20 }
 const c20FirstParty = "https://api.first.test/v1"
 
 type c20Reply struct {
-	Kind string // RDischarge RPoll RRedirect RError
+	Kind string // RDischarge RPoll RUser RRedirect RError (RUser: user-interactive answer; on the wire side of the client it is a poll)
 	Host string // poll host / redirect target (authority as written in the URL)
 	N    int
 	Next *c20Reply
@@ -45,7 +45,7 @@ func (r *c20Reply) coq(hn func(string) string) string {
 	switch r.Kind {
 	case "RDischarge", "RError":
 		return r.Kind
-	case "RPoll":
+	case "RPoll", "RUser":
 		return coqw.App("RPoll", coqw.Str(hn(r.Host)), coqw.Nat(r.N), r.Next.coq(hn))
 	case "RRedirect":
 		return coqw.App("RRedirect", coqw.Str(hn(r.Host)), r.Next.coq(hn))
@@ -63,12 +63,14 @@ type c20Req struct {
 
 // c20World is the scripted third-party side shared by all capturing transports
 type c20World struct {
-	mu     sync.Mutex
-	reqs   []c20Req
-	keys   map[string]macaroon.EncryptionKey // location -> third-party key
-	script map[string]*c20Reply              // location -> reply script
-	flows  map[string]*c20Flow
-	nflow  int
+	mu       sync.Mutex
+	reqs     []c20Req
+	keys     map[string]macaroon.EncryptionKey // location -> third-party key
+	script   map[string]*c20Reply              // location -> reply script
+	flows    map[string]*c20Flow
+	nflow    int
+	userURLs []string // user URLs handed out by the scripted third parties
+	cbURLs   []string // user URLs the client passed to its callback
 }
 
 type c20Flow struct {
@@ -183,7 +185,7 @@ func (w *c20World) serve(r *http.Request, id string, fl *c20Flow) *http.Response
 		resp := jsonResp(r, 307, map[string]string{})
 		resp.Header.Set("Location", target)
 		return resp
-	case "RPoll":
+	case "RPoll", "RUser":
 		if fl.polls < 0 { // poll URL already handed out
 			if fl.rest.N > 0 {
 				fl.rest.N--
@@ -193,6 +195,12 @@ func (w *c20World) serve(r *http.Request, id string, fl *c20Flow) *http.Response
 			return w.serve(r, id, fl)
 		}
 		fl.polls = -1
+		if fl.rest.Kind == "RUser" {
+			// the user goes to user_url in a browser; the client is told the URL through its callback and only ever polls
+			uu := "https://login." + fl.rest.Host + "/user/" + id
+			w.userURLs = append(w.userURLs, uu)
+			return jsonResp(r, 201, map[string]any{"user_interactive": map[string]string{"poll_url": "https://" + fl.rest.Host + "/flow/" + id, "user_url": uu}})
+		}
 		return jsonResp(r, 201, map[string]string{"poll_url": "https://" + fl.rest.Host + "/flow/" + id})
 	}
 	return jsonResp(r, 500, map[string]string{"error": "script"})
@@ -255,7 +263,7 @@ func genC20(c *ctx) {
 				if r.P(1, 3) {
 					next = &c20Reply{Kind: "RRedirect", Host: rng.Pick(r, c20Authorities), Next: &c20Reply{Kind: "RDischarge"}}
 				}
-				return &c20Reply{Kind: "RPoll", Host: rng.Pick(r, c20Authorities), N: r.Intn(3), Next: next}
+				return &c20Reply{Kind: rng.Pick(r, []string{"RPoll", "RPoll", "RUser"}), Host: rng.Pick(r, c20Authorities), N: r.Intn(3), Next: next}
 			case k < 7:
 				return &c20Reply{Kind: "RRedirect", Host: rng.Pick(r, c20Authorities), Next: mkReply(depth + 1)}
 			}
@@ -300,6 +308,7 @@ func genC20(c *ctx) {
 		var opts []tp.ClientOption
 		var optsCoq []string
 		var optsDesc []string
+		ignored := map[string]bool{}
 		nopt := r.Intn(7)
 		for k := 0; k < nopt; k++ {
 			switch r.Intn(6) {
@@ -337,6 +346,9 @@ func genC20(c *ctx) {
 						igN = append(igN, uint64(li+1))
 					}
 				}
+				for _, l := range ig {
+					ignored[l] = true
+				}
 				opts = append(opts, tp.WithIgnoredThirdParties(ig...))
 				optsCoq = append(optsCoq, coqw.App("WithIgnored", coqw.ListOf(igN, coqw.N)))
 				optsDesc = append(optsDesc, fmt.Sprintf("WithIgnoredThirdParties(%v)", ig))
@@ -358,6 +370,13 @@ func genC20(c *ctx) {
 		optsDesc = append(optsDesc[:pos], append([]string{fmt.Sprintf("WithHTTP(#%d)", id)}, optsDesc[pos:]...)...)
 		opts = append(opts, fast)
 		optsCoq = append(optsCoq, "WithOther")
+		opts = append(opts, tp.WithUserURLCallback(func(_ context.Context, u string) error {
+			w.mu.Lock()
+			w.cbURLs = append(w.cbURLs, u)
+			w.mu.Unlock()
+			return nil
+		}))
+		optsCoq = append(optsCoq, "WithOther")
 		// a WithHTTP placed before the capturing one may be the library default? no: every WithHTTP here captures.
 		// but if the first option is WithAuthentication the wrapper is built around cleanhttp's transport and later re-based by WithHTTP.
 		client := tp.NewClient(c20FirstParty, opts...)
@@ -371,6 +390,12 @@ func genC20(c *ctx) {
 				hc.Transport = &c20Transport{id: id, shared: true}
 			}
 		}
+		// NeedsDischarge before the fetch: some third party that is not ignored still has an undischarged ticket
+		needWant := false
+		for _, l := range locs {
+			needWant = needWant || (tickets[l] > 0 && !ignored[l])
+		}
+		needGot, needErr := client.NeedsDischarge(hdr)
 		ctx2, cancel := context.WithTimeout(context.Background(), 5*time.Second)
 		out, ferr := client.FetchDischargeTokens(ctx2, hdr)
 		cancel()
@@ -395,6 +420,34 @@ func genC20(c *ctx) {
 			outToks = nil
 		}
 		oracle := aliasFail
+		if oracle == "" && (needErr != nil || needGot != needWant) {
+			oracle = fmt.Sprintf("NeedsDischarge = %v (err %v) but the header has undischarged, non-ignored third-party caveats: %v", needGot, needErr, needWant)
+		}
+		if oracle == "" && ferr == nil {
+			if again, aerr := client.NeedsDischarge(out); aerr != nil || again {
+				oracle = fmt.Sprintf("after a successful fetch NeedsDischarge(result) = %v (err %v)", again, aerr)
+			}
+		}
+		if oracle == "" {
+			// every user URL the client reported through its callback is one a third party handed out, and the client
+			// fetched none of them itself
+			w.mu.Lock()
+			for _, u := range w.cbURLs {
+				ok := false
+				for _, h := range w.userURLs {
+					ok = ok || h == u
+				}
+				if !ok {
+					oracle = "the user-URL callback was given a URL no third party sent: " + u
+				}
+			}
+			for _, q := range w.reqs {
+				if strings.Contains(q.URL, "/user/") {
+					oracle = "the client itself requested a user-interactive URL: " + q.URL
+				}
+			}
+			w.mu.Unlock()
+		}
 		if outScheme != scheme && oracle == "" {
 			oracle = fmt.Sprintf("scheme prefix not kept: input had scheme=%v, output %q", scheme, out)
 		}
